@@ -163,3 +163,14 @@ def mutated_paths(ev):
     if ev.call == "symlink":
         return [ev.path]                               # path2 is the link's target text
     return [ev.path] if ev.path else []
+
+
+def impossible_fault(events, k, errno_name):
+    """EPERM / EOPNOTSUPP / ENOSYS from copy_file_range or sendfile mean "not supported for these files"; a kernel
+    can only answer that on the FIRST call of a copy, and Rust's std asserts exactly this (kernel_copy:
+    `assert_eq!(written, 0)`) before falling back to read/write. Injecting them into a later call of the same copy is
+    not a behaviour of any file system, so such (k, errno) pairs are not enumerated."""
+    ev = events[k]
+    if ev.call not in ("copy_file_range", "sendfile") or errno_name not in ("EPERM", "EOPNOTSUPP", "ENOSYS"):
+        return False
+    return any(p.call == ev.call and p.path == ev.path and p.ret > 0 for p in events[:k])
